@@ -232,3 +232,130 @@ func storeResources(dir string) (fds, maps []string) {
 	sort.Strings(maps)
 	return
 }
+
+// permutations of 0..n-1 in lexicographic order.
+func permutations(n int) [][]int {
+	var out [][]int
+	var rec func(cur []int, used []bool)
+	rec = func(cur []int, used []bool) {
+		if len(cur) == n {
+			out = append(out, append([]int{}, cur...))
+			return
+		}
+		for i := 0; i < n; i++ {
+			if !used[i] {
+				used[i] = true
+				rec(append(cur, i), used)
+				used[i] = false
+			}
+		}
+	}
+	rec(nil, make([]bool, n))
+	return out
+}
+
+// closeEverything (C15 terminal phase): close the remaining handles, the collection and the store in the
+// variant-th order, run every thread to completion, then look for descriptors, mappings and stale files.
+func (w *World) closeEverything(prop string, variant int) (viols []Violation, more bool) {
+	if w.pending != nil {
+		return nil, false // a blocked writer is C16's subject
+	}
+	type obj struct {
+		name string
+		do   func()
+	}
+	var objs []obj
+	for i, h := range w.handles {
+		h := h
+		objs = append(objs, obj{fmt.Sprintf("%s#%d", h.Kind, i), func() { w.closeHandle(h) }})
+	}
+	if w.coll != nil && !w.closedColl {
+		objs = append(objs, obj{"collection", func() { w.closeColl() }})
+	}
+	if w.store != nil && !w.closedStore {
+		objs = append(objs, obj{"store", func() {
+			t := w.s.Spawn("closestore", func() { w.store.Close() })
+			w.mains[t.ID] = true
+			w.runAll()
+			w.closedStore = true
+		}})
+	}
+	perms := permutations(len(objs))
+	if variant >= len(perms) {
+		return nil, false
+	}
+	var order []string
+	for _, i := range perms[variant] {
+		order = append(order, objs[i].name)
+		objs[i].do()
+		w.helpers()
+		if w.infra != "" {
+			return nil, false
+		}
+	}
+	w.handles = nil
+	w.s.SleepFree = true
+	w.runAll()
+	if pm := w.threadPanicked(); pm != "" {
+		return []Violation{{Prop: prop, Sig: "panic|close-phase|any", Msg: fmt.Sprintf("close order %v: %s", order, pm)}}, false
+	}
+	for i := 0; i < w.s.NumThreads(); i++ {
+		if t := w.s.Thread(i); !t.Done {
+			return []Violation{{Prop: prop, Sig: "thread-left|close-phase|any", Msg: fmt.Sprintf("close order %v: thread %s never finished: %s", order, t.Name, w.describeThreads())}}, false
+		}
+	}
+	if w.dir != "" {
+		fds, maps := storeResources(w.dir)
+		if len(fds) > 0 {
+			viols = append(viols, Violation{Prop: prop, Sig: "descriptor-leak|close-phase|" + w.leakTrigger(order), Msg: fmt.Sprintf("after closing everything (order %v) the process still holds descriptors %v", order, fds)})
+		} else if len(maps) > 0 {
+			viols = append(viols, Violation{Prop: prop, Sig: "mapping-leak|close-phase|" + w.leakTrigger(order), Msg: fmt.Sprintf("after closing everything (order %v) the process still maps %v", order, maps)})
+		} else if files := dataFiles(w.dir); len(files) > 1 && !w.cfg.KeepFiles {
+			viols = append(viols, Violation{Prop: prop, Sig: "stale-data-file|close-phase|" + w.leakTrigger(order), Msg: fmt.Sprintf("after closing everything (order %v) the directory holds %v", order, files)})
+		}
+	}
+	return viols, variant+1 < len(perms)
+}
+
+// leakTrigger narrows C15 signatures by whether the store was closed before the collection.
+func (w *World) leakTrigger(order []string) string {
+	si, ci := -1, -1
+	for i, n := range order {
+		if n == "store" {
+			si = i
+		}
+		if n == "collection" {
+			ci = i
+		}
+	}
+	if si >= 0 && ci >= 0 && si < ci {
+		return "store-closed-before-collection"
+	}
+	return "any"
+}
+
+func init() {
+	g1Specs["C15"] = func(tier string) *G1Spec {
+		sp := &G1Spec{Prop: "C15", Alpha: []*BatchSpec{
+			{Ops: ops("S:a")}, {Ops: ops("S:a", "D:b")}, {Ops: ops("S:b"), Kids: kid("A", &BatchSpec{Ops: ops("S:a")})}},
+			Configs: []Config{
+				{Backing: "store", MinMergePct: 0.01, Concern: 2},
+				{Backing: "store", MinMergePct: 100, Concern: 1, CachePersisted: true},
+				{Backing: "store", MinMergePct: 100, Concern: 0},
+			},
+			Steps: []string{"M", "Pb", "Pe", "S+", "CS+", "I+", "SS+", "H-", "R"},
+			MaxB:  2, MaxD: 7, MaxK: 0, MaxH: 2, MaxR: 1, Deadline: tierDeadline(tier), WithRefs: true,
+			Note: "reference counters are part of the state key; oracle in every state: open handles still readable; terminal phase from every state: close the remaining handles, the collection and the store in every order, then no descriptor, no mapping, at most one data file"}
+		if tier == "thorough" {
+			sp.MaxB, sp.MaxD, sp.MaxK, sp.MaxH = 3, 9, 1, 3
+			sp.Devs = []string{"m1", "p1"}
+			sp.Configs = append(sp.Configs, Config{Backing: "store", MinMergePct: 0.01, Concern: 2, CachePersisted: true, IdleMS: 10, SleepBudget: 2})
+		}
+		sp.Check = func(w *World, path []string) []Violation {
+			return append(withProp(w.viols, "C15"), w.handlesOracle("C15")...)
+		}
+		sp.Terminal = func(w *World, variant int) ([]Violation, bool) { return w.closeEverything("C15", variant) }
+		return sp
+	}
+	engines["C15"] = checkG1
+}
